@@ -225,14 +225,12 @@ def lca_type(dtypes: list[Dtype]) -> Dtype:
         raise DataTypeError(f"incompatible types `{', '.join(str(d) for d in dtypes)}`")
 
     common_ancestors: list[Dtype] = list(common_ancestors)
-    return copy.copy(
-        common_ancestors[
-            signature.best_signature_match(
-                dtypes,
-                [[ancestor] * len(dtypes) for ancestor in common_ancestors],
-            )
-        ]
+    best_index = signature.best_signature_match(
+        dtypes,
+        [[ancestor] * len(dtypes) for ancestor in common_ancestors],
     )
+    assert best_index is not None
+    return copy.copy(common_ancestors[best_index])
 
 
 INT_SUBTYPES = (
